@@ -27,6 +27,7 @@ type PCase struct {
 	Pos    map[string]gram.Pos
 	Pkg    *run.Pkg
 	Origin string // which generator produced it
+	Split  uint64 // non-zero: the specification is spread over several .lox files (seed of the split)
 	Files  map[string]string
 	Intern string
 	Stub   string
@@ -53,6 +54,12 @@ func (pc *PCase) prepare() {
 	pc.Lox, pc.Pos = pc.G.Lox()
 	h, in, st := pc.G.Harness(pc.Opt)
 	pc.Files = map[string]string{"g.lox": pc.Lox, "harness.go": h}
+	if pc.Split != 0 {
+		delete(pc.Files, "g.lox")
+		for fn, src := range splitLox(pc.Lox, pc.Split) {
+			pc.Files[fn] = src
+		}
+	}
 	for fn, src := range pc.G.OtherFiles {
 		pc.Files[fn] = src
 	}
@@ -243,4 +250,41 @@ func tail(s string, n int) string {
 		return s[len(s)-n:]
 	}
 	return s
+}
+
+// splitLox spreads a specification as Grammar.Lox renders it (a lexer
+// section, then "@parser" and rule blocks separated by blank lines) over two to
+// four files: the lexer section in one, the rules dealt out over the others
+// (each under its own "@parser"). File names decide the order in which lox
+// reads them; the lexer file comes first or last.
+func splitLox(lox string, seed uint64) map[string]string {
+	r := rng.New(seed)
+	i := strings.Index(lox, "\n@parser\n")
+	if i < 0 {
+		return map[string]string{"g.lox": lox}
+	}
+	lexer, rest := lox[:i+1], lox[i+len("\n@parser\n"):]
+	blocks := strings.Split(strings.TrimRight(rest, "\n"), "\n\n")
+	n := 1 + r.Intn(3)
+	if n > len(blocks) {
+		n = len(blocks)
+	}
+	parts := make([][]string, n)
+	for _, b := range blocks {
+		k := r.Intn(n)
+		parts[k] = append(parts[k], b)
+	}
+	files := map[string]string{}
+	if r.Chance(1, 2) {
+		files["a_tokens.lox"] = lexer
+	} else {
+		files["z_tokens.lox"] = lexer
+	}
+	for k, bs := range parts {
+		if len(bs) == 0 {
+			continue
+		}
+		files[fmt.Sprintf("g%d_rules.lox", k+1)] = "@parser\n" + strings.Join(bs, "\n\n") + "\n"
+	}
+	return files
 }
